@@ -70,7 +70,7 @@ Definition run_op (d : decl) (op : sexp) : string :=
   | L [A "inventory"] =>
       concat_with " ;; " (map pr_fn (gen_fns {| ft_std := true; ft_serde := true; ft_regex := true; ft_arbitrary := true;
                                                 ft_new_unchecked := true; ft_schemars := false |} d) ++
-                          map (fun u => "use|" ++ fst u ++ "|" ++ snd u) (gen_uses d))%list
+                          map (fun u => String.append "use|" (String.append (fst u) (String.append "|" (snd u)))) (gen_uses d))%list
   | L [A "arb_range"] =>
       match arb_boundary d with
       | Some (lo, hi) => "range " ++ string_of_Z lo ++ " " ++ string_of_Z hi
